@@ -58,9 +58,12 @@ fn managed_paths_for_plan(
     let managed_paths_from_manifest =
         crate::target_manifest::load_managed_paths_from_manifests(roots)?;
     warnings.extend(managed_paths_from_manifest.warnings);
+    let any_usable_manifest = managed_paths_from_manifest.any_usable;
     let managed_paths_from_manifest = managed_paths_from_manifest.managed_paths;
 
-    if !managed_paths_from_manifest.is_empty() {
+    // The snapshot fallback is for roots deployed before manifests existed: a usable manifest,
+    // even one that lists nothing, is the record.
+    if any_usable_manifest {
         return Ok(Some(filter_managed(
             managed_paths_from_manifest,
             target_filter,
